@@ -716,7 +716,8 @@ func unflatten(t types.Type, leaves []*Term, pos *int) Val {
 
 func (h *Heap) mapHas(m *Term, mt *types.Map, k *Term) *Term {
 	n, s := mdomName(mapKeySort(mt))
-	return Select(Select(h.array(n, s), m), k)
+	// a nil map has no entries
+	return And(Not(Eq(m, Null())), Select(Select(h.array(n, s), m), k))
 }
 
 // mapGet returns the stored value (unspecified when absent).
